@@ -72,6 +72,8 @@ type UEParams struct {
 	// 3 repeated well-formed decoy PDU address IEs (29 05 01 a.b.c.d).
 	Fill     int `json:"fill,omitempty"`
 	CauseVal int `json:"cause_val,omitempty"` // 5GSM cause value when the cause IE is present (default #50)
+	// NFlows is the number of QoS flows in the setup request transfer (0 = one).
+	NFlows int `json:"n_flows,omitempty"`
 	// EstReject, if not 0, makes the SMF answer this UE's PDU SESSION ESTABLISHMENT REQUEST with a
 	// PDU SESSION ESTABLISHMENT REJECT carrying this 5GSM cause: the UE never has a session.
 	EstReject int `json:"est_reject,omitempty"`
@@ -98,6 +100,10 @@ type AMFParams struct {
 	// gNB's own PLMN in PLMNSupportList and ServedGUAMIList
 	PLMNsBefore []string `json:"plmns_before,omitempty"`
 	PLMNsAfter  []string `json:"plmns_after,omitempty"`
+	// GUAMIPLMN, if set (MCC + MNC digits), is the PLMN of the AMF's own GUAMI (a shared AMF hosted by
+	// another operator): ServedGUAMIList, the GUAMI of context setup requests and the 5G-GUTI carry it,
+	// while PLMNSupportList contains the gNB's PLMN as well.
+	GUAMIPLMN string `json:"guami_plmn,omitempty"`
 }
 
 // Latency describes the network's timing.
